@@ -25,7 +25,7 @@ import (
 func c01SchedCases(thorough bool) []c13Case {
 	var out []c13Case
 	bound := 2
-	subs := 2
+	subs := 8
 	if thorough {
 		bound = 3
 		subs = 8
@@ -39,11 +39,15 @@ func c01SchedCases(thorough bool) []c13Case {
 						name = "sched-early"
 					}
 					for sub := 0; sub < subs; sub++ {
+						b := bound
+						if !early && !thorough {
+							b = 1 // a draining handler waits for the end of the request: fewer races to look for
+						}
 						out = append(out, c13Case{
 							Name:  name,
 							Cfg:   Cfg{Proto: p, Comp: CompDefault, Kind: kind, HTTP: 2, ReqMode: memhttp.ReqEager},
 							Calls: []c13Call{{Sizes: []int{30}}},
-							Early: early, RR: rr, Bound: bound, Sub: sub, Subs: subs,
+							Early: early, RR: rr, Bound: b, Sub: sub, Subs: subs,
 						})
 					}
 				}
